@@ -134,10 +134,7 @@ def runSeq (s : DState) (raw : Bool) (ps rs : List Ty) (calls : List (List Val))
   let eqOK := keys.all fun k => keys.all fun k' =>
     match Equal.top env KT k k' with | .ok _ => true | .panic => false
   if shape == .bucket && !(hashOK && eqOK) then "model=panic spec=panic" else
-  let cfg : Mem.Cfg := {
-    shape := shape, nres := rs.length,
-    hash := fun k => match Hash.top env KT k with | .ok h => h | .panic => 0,
-    eq := fun a b => match Equal.top env KT a b with | .ok r => r | .panic => false }
+  let cfg := Mem.cfgOf env ps rs.length
   let f := fOf env rs raw
   let tr := Mem.runFrom cfg f (Mem.init cfg) calls
   let answers := ";".intercalate (tr.map fun e => showTuple e.2.1)
